@@ -25,8 +25,13 @@ enum Item {
     /// the same `jmp rax` taken twice in a row with two different targets (no other traced
     /// event in between): must be two entries, not one entry with count 2
     IndirectTwice,
+    /// direct self-recursion with nothing traced between two executions of the same `call f`:
+    /// every call is its own entry and raises the level (only jumps are run-length collapsed)
+    Recurse,
+    /// the same `ret` executed twice in a row with the same target
+    RetSelfTwice,
 }
-const ITEMS: [Item; 12] = [
+const ITEMS: [Item; 14] = [
     Item::JmpNext,
     Item::Loop,
     Item::JeTaken,
@@ -39,6 +44,8 @@ const ITEMS: [Item; 12] = [
     Item::Int3,
     Item::CallOverRet,
     Item::IndirectTwice,
+    Item::Recurse,
+    Item::RetSelfTwice,
 ];
 
 const BASE: u64 = 0x40_1000;
@@ -54,6 +61,8 @@ fn item_len(i: Item) -> usize {
         Item::CallRax | Item::JmpRax => 9,
         Item::CallOverRet => 8,
         Item::IndirectTwice => 20,
+        Item::Recurse => 18,
+        Item::RetSelfTwice => 11,
     }
 }
 
@@ -96,6 +105,22 @@ fn assemble(p: &[Item]) -> Vec<u8> {
                 out.extend_from_slice(&[0x48, 0xC7, 0xC0]); // S: mov rax, T1
                 out.extend_from_slice(&((b + 2) as u32).to_le_bytes());
                 out.extend_from_slice(&[0xEB, 0xF5]); // jmp J
+            }
+            Item::Recurse => {
+                out.extend_from_slice(&[0xE8, 0x02, 0, 0, 0]); // call f
+                out.extend_from_slice(&[0xEB, 0x0B]); // jmp end
+                out.extend_from_slice(&[0x48, 0xFF, 0xC9]); // f: dec rcx
+                out.extend_from_slice(&[0x74, 0x05]); // jz done
+                out.extend_from_slice(&[0xE8, 0xF6, 0xFF, 0xFF, 0xFF]); // call f
+                out.push(0xC3); // done: ret
+            }
+            Item::RetSelfTwice => {
+                let r = (BASE + pos + 10) as u32;
+                out.push(0x68);
+                out.extend_from_slice(&r.to_le_bytes());
+                out.push(0x68);
+                out.extend_from_slice(&r.to_le_bytes());
+                out.push(0xC3); // R: ret (to R, then to R again, then to whatever lies below)
             }
         }
     }
@@ -346,7 +371,7 @@ pub fn run(tier: Tier) -> i32 {
         run.findings.merge(f);
         run.cov("devlike_profile_run", summary);
     }
-    enum_evidence(&mut run, &out, "one case = a program of <= L items over {jmp next, dec/jne countdown loop, je taken, je untaken, call next, ret, push addr+ret (unmatched return), mov+call rax, mov+jmp rax, int3, call/ret pair}; after every step the structured trace and call stack are compared with an independent tracer (iced decode, condition evaluated on the flags, targets from its own operand evaluation, run-length collapse), and trace()/call_stack()/to_string() are rendered under catch_unwind and an allocation guard; states = distinct programs; distinct_nontrivial = distinct trace histories");
+    enum_evidence(&mut run, &out, "one case = a program of <= L items over {jmp next, dec/jne countdown loop, je taken, je untaken, call next, ret, push addr+ret (unmatched return), mov+call rax, mov+jmp rax, int3, call/ret pair, one indirect jump taken twice with two targets, direct self-recursion, one ret executed twice with the same target}; after every step the structured trace and call stack are compared with an independent tracer (iced decode, condition evaluated on the flags, targets from its own operand evaluation, run-length collapse), and trace()/call_stack()/to_string() are rendered under catch_unwind and an allocation guard; states = distinct programs; distinct_nontrivial = distinct trace histories");
     run.cov("program_max_length", json!(maxlen));
     run.guard("cases", out.cases >= 10_000 || out.capped, format!("{} programs", out.cases));
     run.guard("traces-distinct", out.distinct > 100, format!("{} distinct trace histories", out.distinct));
